@@ -42,7 +42,8 @@ def subsample(counts, n):
     indices, counts: Subsampled vector of counts where the sum of the elements equals `n`
     """
     n = int(n)
-    unpacked = np.concatenate([np.repeat(np.array(i,), count) for i, count in enumerate(counts)])
+    unpacked = np.concatenate([np.repeat(np.array(i,), count) for i, count in enumerate(counts)]
+                              + [np.array([], dtype=int)])
     sample = np.random.choice(unpacked, size=n, replace=False)
     unique, counts = np.unique(sample, return_counts=True)
     return unique, counts
